@@ -132,6 +132,7 @@ struct Truth {
     merges: Vec<(usize, u64)>,
     late: BTreeSet<(usize, u64)>,
     too_late: BTreeSet<(usize, u64)>,
+    refused_readable: BTreeSet<(usize, u64)>,   // application messages refused at their FIRST offer although the receiver was on the sender's branch, within the look-back
     retention_of: BTreeMap<usize, u64>,            // clients restarted with another retention
     commits_since_restart: BTreeMap<usize, u64>,
     offered: Vec<BTreeSet<u64>>,           // events already offered to each client
@@ -209,8 +210,10 @@ fn run_world<S: MdkStorageProvider, F: Fn(usize) -> S>(run: &mut Run, lines_in: 
         if rmprop_script { admin_mask &= !0b100; }
         if removal_script && (h / 6) % 3 == 2 { admin_mask |= 0b10; }
         if twin { admin_mask = (admin_mask & !0b1000) | ((admin_mask & 0b100) << 1); }
+        // delivery regime and merge style are drawn independently of the script residue (h % 6): a multiplicative hash of h
+        let hmix = (h.wrapping_add(1)).wrapping_mul(2654435761) >> 11;
         let mut g = Gen { r: r.fork(), n, admin_mask, next_ev: 0, next_msg: 1, evs: BTreeMap::new(),
-                          regime_causal: h % 3 != 2, immediate: h % 4 == 3, client_epoch: vec![1; n], delivered: BTreeSet::new(), left: None, adv: 0, twin, removed: false, no_send: BTreeSet::new() };
+                          regime_causal: hmix % 3 != 2, immediate: (hmix / 3) % 4 == 3, client_epoch: vec![1; n], delivered: BTreeSet::new(), left: None, adv: 0, twin, removed: false, no_send: BTreeSet::new() };
         let mut w: World<S> = World::new_full(n, admin_mask, retention, twin, spare, &mk);
         if let Some(f) = reopen_factory.as_ref() { w.reopen = Some(f(h)); }
         let reset = format!("PR RESET {n} {admin_mask} {retention}{}", if spare > 0 { format!(" {} {spare}", twin as u8) } else if twin { " 1".to_string() } else { String::new() });
@@ -406,6 +409,24 @@ fn step<S: MdkStorageProvider>(w: &mut World<S>, l: &str, truth: &mut Truth, run
             if info.kind == "commit" && info.author == m && info.epoch == w.mls_epoch(m) { if let Some(p) = w.pending_of(m) { if p != ev { truth.own_echo_other_pending = true; } } }
         }
     }
+    // ground truth for C02: is this the first offer of an honest application message of another member, sent in a state that is
+    // an ancestor (at most 5 commits back: exporter-secret look-back = OpenMLS max_past_epochs) of the receiver's current state?
+    let readable_now: Option<u64> = if t[1] == "DELIVER" {
+        let ev: u64 = t[3].parse().unwrap();
+        w.events.get(&ev).cloned().and_then(|info| {
+            if info.kind != "app" || info.ckind == "forged" || info.author == m || truth.offered[m].contains(&ev) { return None; }
+            // (a later joiner never held the states before its join)
+            if !truth.visited[m].contains(&info.state) { return None; }
+            if truth.sendx.iter().any(|(_, a, b)| info.msg.map(|x| x.0 == *a || x.0 == *b).unwrap_or(false)) { return None; }
+            let mut st: u64 = w.sigma_of(m, None).parse().ok()?;
+            for _ in 0..=5 {
+                if st == info.state { return Some(ev); }
+                if st == 0 { return None; }
+                st = w.events.get(&(st - 1))?.state;
+            }
+            None
+        })
+    } else { None };
     if t[1] == "MERGE" { truth.merges.push((m, t[3].parse().unwrap())); }
     if t[1] == "JOIN" { truth.visited[m].insert(t[3].parse::<u64>().unwrap() + 1); }
     if t[1] == "RESTART" && t.len() > 3 { truth.retention_of.insert(m, t[3].parse().unwrap()); truth.commits_since_restart.insert(m, 0); }
@@ -416,7 +437,11 @@ fn step<S: MdkStorageProvider>(w: &mut World<S>, l: &str, truth: &mut Truth, run
     let rb_before = if t[1] == "DELIVER" { w.clients[m].cb.0.lock().unwrap().len() } else { 0 };
     let leave_to_pending_admin = t[1] == "DELIVER" && w.events.get(&t[3].parse().unwrap()).map(|i| i.kind == "prop").unwrap_or(false)
         && w.is_admin_now(m) && w.pending_of(m).is_some();
+    // clear_pending_commit is for commits that were never published: an auto-commit that is cleared never reaches anybody
+    // (generated commits are withdrawn by the generator itself; auto-commit events live only in the world's event table)
+    let cleared_auto = if t[1] == "CLEAR" { w.pending_of(m).filter(|p| *p >= 1000) } else { None };
     let (line, fp) = w.exec(l);
+    if let Some(p) = cleared_auto { if w.pending_of(m).is_none() { w.events.remove(&p); } }
     if t[1] == "DELIVER" { truth.offered[m].insert(t[3].parse().unwrap()); }
     if let Some(b) = before_restart { if fp != "skip" {
         truth.restarted.insert(m);
@@ -555,6 +580,7 @@ fn step<S: MdkStorageProvider>(w: &mut World<S>, l: &str, truth: &mut Truth, run
         let applied_here = !fp.starts_with("res=Commit") || fp.contains(&format!(" st={} ", ev + 1));
         if applied_here && ["res=App", "res=Commit", "res=PendingProposal", "res=AutoCommit"].iter().any(|k| fp.starts_with(k)) { truth.took_effect.insert((m, ev)); }
     }
+    if let Some(ev) = readable_now { if fp.contains(" act=1 ") && ["res=Err", "res=Unprocessable", "res=PreviouslyFailed"].iter().any(|k| fp.starts_with(k)) { truth.refused_readable.insert((m, ev)); } }
     // C06: a refused event has no effect on the observable projection
     if let Some(b) = before {
         let refused = ["res=Err", "res=Unprocessable", "res=PreviouslyFailed", "res=IgnoredProposal"].iter().any(|k| fp.starts_with(k));
@@ -654,6 +680,8 @@ fn oracles<S: MdkStorageProvider>(run: &mut Run, w: &mut World<S>, seq: &mut Vec
             let (msgno, _) = info.msg.unwrap();
             for &c in &active {
                 if states[c] != target { continue; }
+                // a later joiner never held the states before its join: what was sent there is not for it (C03)
+                if !truth.visited[c].contains(&0) && !truth.visited[c].contains(&info.state) { continue; }
                 // a sender that pre-set another message's id on its rumor files its own copy under that id: self-inflicted
                 if truth.sendx.iter().any(|(sm, a, b)| *sm == c && (*a == msgno || *b == msgno)) { continue; }
                 let fp = &before[c];
@@ -664,7 +692,9 @@ fn oracles<S: MdkStorageProvider>(run: &mut Run, w: &mut World<S>, seq: &mut Vec
                     if truth.too_late.contains(&(c, *ev)) { continue; }
                     // the known finding files a late message under the receiver's epoch (so a rollback invalidates it): the message
                     // is THERE but invalid; a late message that is missing altogether is not that finding
-                    let cls = if !class.is_empty() { class } else if late { "event-offered-ahead-of-its-predecessor-never-retried" } else if truth.late.contains(&(c, *ev)) && entry.is_some() { "message-filed-under-receivers-epoch" } else { "" };
+                    // refused at its first offer although the receiver was on the sender's branch and within the look-back: no
+                    // history-level class explains that
+                    let cls = if truth.refused_readable.contains(&(c, *ev)) && entry.is_none() { "" } else if !class.is_empty() { class } else if late { "event-offered-ahead-of-its-predecessor-never-retried" } else if truth.late.contains(&(c, *ev)) && entry.is_some() { "message-filed-under-receivers-epoch" } else { "" };
                     run.oracle_fail("C02", cls, format!("[{backend}] winning-branch message {msgno} (event {ev}, sent at state {}) is {} at member {c}", info.state, entry.clone().unwrap_or("missing".into())), seq.join(" || "));
                 }
                 if !on_chain(info.state) && entry.as_ref().map(|e| { let st = e.split(':').nth(1).unwrap_or(""); st == "1" || st == "0" }).unwrap_or(false) {
